@@ -9,6 +9,8 @@ Inductive c14case :=
 | CRowSeq (rs : list row)                    (* rows through ONE SignatureVerificationService: per step [outcome; probe] *)
 | CQuery (dm : dmodel) (qs : list rentity)   (* GraphDatabaseService::query on an instance with this data model: [outcome; probe] *)
 | CQSize (dm : dmodel) (q : rentity)         (* QueryParser::parse + PreparedQueries::build: [resolved; #SELECT; #"("; #")"] *)
+| CAgg (q : aquery)                          (* one entity with the whole clause language, through GraphDatabaseService::query: [outcome; probe] *)
+| CDel (p : option pval)                     (* delete { E { $id } } through GraphDatabaseService::delete: [outcome; probe] *)
 | CObs (stream : N).                         (* streams without a model verdict: [panics; probe] *)
 
 (* outcome codes in observations: 0 Ok, 1 Err, 2 a thread / the call panicked, 3 no answer in time *)
@@ -28,6 +30,8 @@ Definition run_C14 (c : c14case) : list Z :=
                    | None => [0; 0; 0; 0]
                    | Some ce => 1 :: c3_list (counts_entity ce)
                    end
+  | CAgg q => pool_run default_parallelism [aquery_outcome q]
+  | CDel p => pool_run default_parallelism [delete_outcome p]
   | CObs _ => [0; 1]
   end.
 
@@ -144,6 +148,22 @@ Fixpoint steps_ok (valid : list bool) (obs : list Z) : bool :=
 Definition key_wellformed (k : list N) (pok : bool) : bool :=
   Nat.eqb (List.length k) 33 && match k with b :: _ => N.eqb b 1 | [] => false end && pok.
 
+(* a request of the clause family is valid when the parser's rules accept it (typing of filter and
+   paging values against what their key denotes, cross-clause rules) and every variable is given
+   a value of its type; a deletion is valid when its id is the base64 of 16 bytes *)
+Definition aquery_valid (q : aquery) : bool :=
+  match aquery_check q with
+  | Some vs => forallb (fun xv => match lookup (fst xv) (aq_params q) with
+                                  | Some p => match validate_one (snd xv) p with Some _ => true | None => false end
+                                  | None => false end) vs
+  | None => false
+  end.
+Definition delete_valid (p : option pval) : bool :=
+  match p with
+  | Some (PStr s) => s_b64 s && match s_uid s with UNot16 => false | _ => true end
+  | _ => false
+  end.
+
 Definition spec_C14 (c : c14case) (obs : list Z) : bool :=
   match c with
   | CMut m => steps_ok [mutation_valid m] obs
@@ -159,6 +179,8 @@ Definition spec_C14 (c : c14case) (obs : list Z) : bool :=
                        if Z.eqb r 1 then Z.eqb l rp && Z.leb s (zn (select_bound q))
                        else negb (entity_valid dm q)
                    | _ => false end
+  | CAgg q => steps_ok [aquery_valid q] obs
+  | CDel p => steps_ok [delete_valid p] obs
   | CObs _ => zlist_eqb obs [0; 1]
   end.
 
@@ -176,7 +198,8 @@ Fixpoint nn_nested (c : cfield) : bool :=
   | _ => false end.
 
 (* 5: blank search text; 6: selection paths beyond the engine's parser stack;
-   7: nested non-nullable references (each level is compiled twice) *)
+   7: nested non-nullable references (each level is compiled twice);
+   8: a filter on a reference field in an aggregate selection *)
 Definition k5_entity (c : centity) : bool := negb (search_ok c).
 Definition k6_entity (c : centity) : bool := negb (depth_ok c).
 Definition k7_entity (c : centity) : bool := existsb nn_nested (ce_fields c).
@@ -193,6 +216,7 @@ Definition known_C14 (c : c14case) : list Z :=
       match resolve_entity dm q with
       | Some ce => flag 7 (k7_entity ce)
       | None => [] end
+  | CAgg q => flag 5 (search_blank q) ++ flag 8 (ref_filter_on_aggregate q)
   | _ => []
   end.
 
